@@ -235,3 +235,30 @@ def ident_obligation(prop="C10", replay=None):
                 r.replay = replay()
         out.append(r)
     return out
+
+
+def selector_tables_private(prop="C10", replay=None):
+    """the uniqueness of identifiers (contract {prop}.A.NameSelector.get_name) is an invariant of the selector's two tables over its whole life: every entity of the project goes
+    through the one project-wide selector, and nothing but NameSelector's own methods reads or writes `_items` / `_counts` - no other code of the package resets or edits them
+    (a page shows page-less items of several files: numbering that restarts per file repeats anchors)."""
+    import ast, os
+    from harness import loader
+    from harness.core import OR, PROVED, REFUTED
+    root = os.path.dirname(loader.module_path("ford.output"))
+    bad = []
+    for name in sorted(os.listdir(root)):
+        if not name.endswith(".py"):
+            continue
+        tree = ast.parse(open(os.path.join(root, name), encoding="utf-8").read())
+        inside = {id(n) for c in ast.walk(tree) if isinstance(c, ast.ClassDef) and c.name == "NameSelector" for n in ast.walk(c)}
+        for n in ast.walk(tree):
+            if isinstance(n, ast.Attribute) and n.attr in ("_items", "_counts") and id(n) not in inside:
+                bad.append((name, n.lineno, ast.unparse(n)))
+    r = OR(id=f"{prop}.S.NameSelector.tables_are_touched_by_the_selector_only", status=REFUTED if bad else PROVED, kind="S", role="invariant", backend="ast", target="ford/*.py",
+           desc="no access to `_items` / `_counts` outside class NameSelector anywhere in the package")
+    if bad:
+        r.witness = {"sites": bad}
+        r.detail = f"{bad[0][0]}:{bad[0][1]} `{bad[0][2]}` reaches into the name selector: identifiers handed out before and after are no longer told apart"
+        if replay:
+            r.replay = replay()
+    return [r]
